@@ -217,17 +217,22 @@ def lay(a: np.ndarray, dense: bool = False) -> np.ndarray:
 _DTYPE = os.environ.get("VERIF_DTYPE", "float")      # development aid: force a dtype for experiments
 
 
+DTYPES = ("float", "int", "int32", "int16")      # "int" = int64
+
+
 def set_dtype(name: str) -> None:
     global _DTYPE
-    assert name in ("float", "int"), name
+    assert name in DTYPES, name
     _DTYPE = name
 
 
 def _dt(values, dtype):
-    if dtype is float and _DTYPE == "int":
+    if dtype is float and _DTYPE != "float":
         flat = np.asarray(values, dtype=float).reshape(-1)
-        if flat.size and np.all(flat == np.round(flat)) and np.all(np.abs(flat) < 2 ** 40):
-            return np.int64
+        # narrow types only for small values: sums and products of a few of them must stay representable
+        lim = {"int": 2 ** 40, "int32": 2 ** 12, "int16": 2 ** 4}[_DTYPE]
+        if flat.size and np.all(flat == np.round(flat)) and np.all(np.abs(flat) < lim):
+            return {"int": np.int64, "int32": np.int32, "int16": np.int16}[_DTYPE]
     return dtype
 
 
